@@ -289,7 +289,18 @@ pub trait Indexable {
     fn type_of_member(&self, ctx: ScriptContextRef) -> (r: Result<Type, Error>);
     fn get(&self, index: i64) -> (r: Result<Value, Error>);
 }
+/// `dyn Callable` of a native object (functions of the rule language): the two entry points the evaluator uses
+pub trait Callable {
+    fn signature(&self, ctx: ScriptContextRef, args: &[Value]) -> (r: Result<Type, Error>);
+    fn call(&self, ctx: ScriptContextRef, args: &[Value]) -> (r: Result<Value, Error>);
+}
 impl NativeObjectRef {
+    /// does this native object have a Callable side (is it a function)?
+    pub uninterp spec fn callable(&self) -> bool;
+    #[verifier::external_body]
+    pub fn as_callable(&self) -> (r: Option<&dyn Callable>)
+        ensures r is Some == self.callable(),
+    { unimplemented!() }
     #[verifier::external_body]
     pub fn as_evaluatable(&self) -> (r: Option<&dyn Evaluatable>) { unimplemented!() }
     #[verifier::external_body]
